@@ -14,6 +14,7 @@ mod features;
 mod gate;
 mod gcsuite;
 mod execsuite;
+mod replsuite;
 mod model;
 mod dwarf;
 mod gen;
@@ -66,6 +67,7 @@ fn main() {
         "gate" => gate::main(seed, &tier, only.as_deref()),
         "gc" => gcsuite::main(seed, &tier, only.as_deref()),
         "exec" => execsuite::main(seed, &tier, only.as_deref()),
+        "replace" => replsuite::main(seed, &tier, only.as_deref()),
         "gate-deep" => gate::deep(args[2].parse().unwrap()),
         "opsxtest" => {
             let u = opsx::universe(1);
